@@ -1,7 +1,7 @@
 // Package c08: "Abrupt exits run each pending finally and iterator close exactly once, in order; interrupts and
 // stack-overflow errors run none of them."
 //
-// Workload: control-flow skeletons (ctlref) — every nesting of 24 region kinds to depth 2 (3 in the thorough tier)
+// Workload: control-flow skeletons (ctlref) — every nesting of 24 region kinds to depth 2 (plus a third of depth 3 in the thorough tier)
 // plus sampled tree-shaped skeletons to depth 5 — and, exhaustively per skeleton, every single modification:
 // one abrupt completion {break, break L, continue, continue L, return, throw} (unconditional and on the second
 // iteration of the innermost loop) at EVERY statement position, every instrumented-iterator misbehaviour
@@ -44,7 +44,7 @@ func Check() *core.Check {
 	return &core.Check{
 		ID:    "C08",
 		Level: "fault_enumeration",
-		Rule: "case = one control-flow skeleton (chain of region kinds, exhaustive to depth 2 quick / 3 thorough; or a sampled tree skeleton to depth 5) together with ALL its single modifications " +
+		Rule: "case = one control-flow skeleton (chain of 24 region kinds: every nesting of depth 1 and 2, in the thorough tier also a seed-selected third of the depth-3 nestings; or a sampled tree skeleton to depth 5) together with ALL its single modifications " +
 			"(abrupt completion of every kind at every statement position, every iterator misbehaviour, every driver return()/throw()), each run in function and script mode; " +
 			"for a sample of instances additionally an Interrupt at every VM instruction and every call-stack limit (exhaustive per program); " +
 			"non-trivial = some instance's exit was reached and crosses >= 2 enclosing regions of different kinds; distinct = distinct skeleton texts",
@@ -61,21 +61,27 @@ func Check() *core.Check {
 			}
 			return 300
 		},
-		NumPinned:    len(pinned),
-		CaseTimeoutS: 120,
+		NumPinned:    numPinned,
+		CaseTimeoutS: 300,
 		Run:          run,
 	}
 }
 
+// numPinned must equal len(pinned) (pinned.go: 5 regression witnesses + 3 known-finding witnesses appended in init).
+const numPinned = 8
+
 const (
-	quickRandom    = 900
-	thoroughRandom = 9000
+	quickRandom    = 650
+	thoroughRandom = 4000
 )
+
+// depth-3 chains: the thorough tier runs a deterministic third of the 24^3 nestings (which third depends on the seed)
+const chain3Stride = 3
 
 func numCases(tier string) int {
 	n := ctlref.NumChains(1) + ctlref.NumChains(2)
 	if tier == "thorough" {
-		return n + ctlref.NumChains(3) + thoroughRandom
+		return n + ctlref.NumChains(3)/chain3Stride + thoroughRandom
 	}
 	return n + quickRandom
 }
@@ -94,11 +100,11 @@ func skeleton(c *core.Ctx) (*ctlref.Program, string) {
 	}
 	i -= ctlref.NumChains(2)
 	if c.Thorough() {
-		if i < ctlref.NumChains(3) {
-			k := ctlref.ChainKinds(3, i)
+		if i < ctlref.NumChains(3)/chain3Stride {
+			k := ctlref.ChainKinds(3, i*chain3Stride+int(c.Seed%chain3Stride))
 			return ctlref.Chain(k), "chain:" + ctlref.ChainName(k)
 		}
-		i -= ctlref.NumChains(3)
+		i -= ctlref.NumChains(3) / chain3Stride
 	}
 	depth := 2 + c.Rng.Intn(4)
 	budget := 6 + c.Rng.Intn(16)
@@ -179,13 +185,16 @@ func checkInstance(c *core.Ctx, in *instance, st *core.Stats) (*core.Result, *en
 		st.Inc("script_completion_value_not_compared")
 		expFinal = er.Final
 	}
-	if d := diffLogs(ref.Log, er.Log, expFinal, er.Final); d != "" {
+	if d := diffLogs(ref.Log, er.Log, expFinal, er.Final); d != "" && monitorOn("model") {
+		if t := traceSpecMode(in.prog, er.Log, er.Final, false, in.mode); t != "" {
+			d += "\n(the model-free trace specification is violated as well: " + t + ")"
+		}
 		return fail("model", d), er, &ref
 	}
-	if er.Idle != "" {
+	if er.Idle != "" && monitorOn("idle") {
 		return fail("vm-not-idle", "VM registers not idle after the outermost return: "+er.Idle), er, &ref
 	}
-	if d := traceSpecMode(in.prog, er.Log, er.Final, false, in.mode); d != "" {
+	if d := traceSpecMode(in.prog, er.Log, er.Final, false, in.mode); d != "" && monitorOn("trace") {
 		return fail("trace", d), er, &ref
 	}
 	return nil, er, &ref
@@ -251,7 +260,7 @@ func run(c *core.Ctx) core.Result {
 			}
 		}
 	}
-	if r := faultPart(c, faultCands); r != nil {
+	if r := faultPart(c, faultCands); r != nil && monitorOn("fault") {
 		return *r
 	}
 	if st.WantSample() && c.Index%97 == 5 {
@@ -269,6 +278,12 @@ func refReaches(p *ctlref.Program, exitID int) bool {
 		}
 	}
 	return false
+}
+
+// monitorOn: development aid for mutation trials — C08_MONITORS=trace,fault switches the others off (default: all on).
+func monitorOn(name string) bool {
+	sel := os.Getenv("C08_MONITORS")
+	return sel == "" || strings.Contains(","+sel+",", ","+name+",")
 }
 
 func shapeOf(p *ctlref.Program) string {
